@@ -208,8 +208,22 @@ func vfExplore(r *vfRun, cfg *vfExploreCfg) {
 						canonB, obsB, _, _ := vfRunHistory(r, cfg, h, false, leaf)
 						r.unmark()
 						if canonB != canon || obsB != obs {
-							r.harnessError("nondeterministic replay in scenario %s history %v:\n%s", cfg.Name, h, vfDiff(canon+"\n"+obs, canonB+"\n"+obsB))
-							return
+							// One more run decides between a harness that does not own some choice (an error: every run
+							// differs, or this happens again and again) and the Go scheduler preempting a goroutine in the
+							// middle of a step: with one P a handler of the event loop normally runs to its next blocking
+							// point, but on a loaded machine the runtime takes the processor away after 10 ms of wall
+							// clock, and with a queue of one it then matters whether the writer ran between two pushes. The
+							// schedule inside a step is not something the search enumerates (assumption in the evidence).
+							r.mark(c)
+							canonC, obsC, _, _ := vfRunHistory(r, cfg, h, false, leaf)
+							r.unmark()
+							agree := (canonC == canon && obsC == obs) || (canonC == canonB && obsC == obsB)
+							r.count("selfcheck_mismatches_settled_by_a_third_run", 1)
+							if !agree || r.res.Counters["selfcheck_mismatches_settled_by_a_third_run"] > 3 {
+								r.harnessError("nondeterministic replay in scenario %s history %v:\n%s", cfg.Name, h, vfDiff(canon+"\n"+obs, canonB+"\n"+obsB))
+								return
+							}
+							r.note("self-check: one of three runs of %s %v differed (goroutine preemption inside a step); first differing lines:\n%s", cfg.Name, h, vfFirstLines(vfDiff(canon+"\n"+obs, canonB+"\n"+obsB), 4))
 						}
 					}
 					if leaf {
@@ -290,6 +304,14 @@ func vfReplayCase(r *vfRun, cfg *vfExploreCfg, raw json.RawMessage) {
 		r.violation("panic:"+vfPanicFingerprint(p), "panic: "+vfFirstLine(p), vfCase{Scenario: cfg.Scenario, Name: cfg.Name, Events: c.Events})
 	}
 	fmt.Println(obs)
+}
+
+func vfFirstLines(s string, n int) string {
+	l := strings.Split(s, "\n")
+	if len(l) > n {
+		l = l[:n]
+	}
+	return strings.Join(l, "\n")
 }
 
 func vfFirstLine(s string) string {
